@@ -54,6 +54,10 @@ type wireConn struct {
 	// delivered: an incoming piece has been handed to the reader; early[i]: wire record i was written before that
 	delivered bool
 	early     []bool
+	// hold: the peer does not take the bytes of a write before this is true (it is busy sending its own request and
+	// drains nothing meanwhile); wait blocks the writing thread in the scheduler until then
+	hold func() bool
+	wait func(func() bool)
 }
 
 // stallConn is a socket whose FIRST write takes a long (real) time.
@@ -93,6 +97,9 @@ func (f *wireConn) Write(b []byte) (int, error) {
 		armedBefore := f.deadline
 		f.mu.Unlock()
 		f.point() // the peer stalls here
+		if f.hold != nil && f.wait != nil {
+			f.wait(f.hold) // … and, in these scenarios, until it has sent what it is sending
+		}
 		f.mu.Lock()
 		defer f.mu.Unlock()
 		if f.closed {
@@ -196,6 +203,10 @@ const switching = -8
 // finished (EndResponse). Its pieces must reach the peer as one uninterrupted message, and what other writers have for
 // the connection in the meantime comes after it, under the counters of its arrival position.
 const response = -9
+
+// readStalled: like read, but the peer takes nothing of what the accessory writes before its own request has been
+// delivered to the accessory's reader: a reader that needs anything a stalled writer holds never gets there.
+const readStalled = -11
 
 // responses: two such responses one after the other (what was kept during the first must not land inside the second)
 const responses = -10
@@ -632,7 +643,15 @@ func execute(c *fw.Ctx, writers [][]int, prefix []int, bound int, prior int) []s
 		ct := refctl.Frames(c2a, &rc, reqPlain)
 		fc.in = append(fc.in, ct[:600], ct[600:])
 	}
-	if has(writers, read) {
+	if has(writers, readStalled) {
+		fc.hold = func() bool { return len(reqGot) >= len(requestPlain()) || reqErr != nil }
+		fc.wait = func(cond func() bool) {
+			if S.Active() {
+				S.Point(cond)
+			}
+		}
+	}
+	if has(writers, read) || has(writers, readStalled) {
 		fc.slow = true
 		reqPlain = requestPlain()
 		_, c2a := refctl.SessionKeys(secret[:])
@@ -655,7 +674,7 @@ func execute(c *fw.Ctx, writers [][]int, prefix []int, bound int, prior int) []s
 			bodies = append(bodies, func() { longChar.SetValue(longValue()) })
 			continue
 		}
-		if len(lens) == 1 && lens[0] == read {
+		if len(lens) == 1 && (lens[0] == read || lens[0] == readStalled) {
 			bodies = append(bodies, func() {
 				buf := make([]byte, 4096)
 				for len(reqGot) < len(reqPlain) && reqErr == nil {
@@ -801,6 +820,8 @@ func scenarios(thorough bool) []scenario {
 		{[][]int{{300}, {notifyLong}, {notify}}, 2, 0},
 		{[][]int{{1500}, {read}}, -1, 0},
 		{[][]int{{300}, {read}, {40}}, 2, 0},
+		{[][]int{{1500}, {readStalled}}, -1, 0},
+		{[][]int{{300}, {readStalled}, {notify}}, 2, 0},
 		{[][]int{{1500}, {otherConn}}, -1, 0},
 		{[][]int{{300}, {otherConn}, {read}}, 2, 0},
 		// a connection that has carried 255 / 65535 writes before (where a narrow counter of a lock or a queue wraps)
@@ -1186,7 +1207,7 @@ func init() {
 	fw.Register(&fw.Check{
 		ID:    "C08",
 		Level: "model_checking",
-		Rule:  "stateless exploration of goroutine interleavings under a cooperative scheduler with iterative preemption bounding: 2–5 writer goroutines × 1–3 Connection.Write calls with one- and two-frame payloads, keep-alive rounds sent by hap.KeepAlive itself, and EVENTs written by the notifyListener of a real (not started) IP transport after an application value change (a boolean, and a 3000-byte string: an EVENT of four frames), over a socket that stalls in the middle of every write (a write deadline armed meanwhile expires for the write in flight), the connection's own reader opening an incoming two-frame request whose ciphertext arrives in five pieces (each arrival a scheduling point) while writes are in flight, and a writer on another connection of the same accessory, on a real hap.Connection with a real secure session; scheduling points = every Lock of a sync.Mutex/RWMutex and every Wait of a sync.Cond in packages hap and crypto (import rewritten to a shim through go build -overlay) and every socket Write; per schedule the captured wire must decrypt front to back with counters in arrival order (reference AEAD) and be a sequence of whole payloads (the same for the other connection's wire), and the reader must get the request intact. 2-writer scenarios unbounded, larger ones preemption bound 2 (thorough: unbounded / 3). Plus the same questions at STATEMENT granularity (subprocess built with a scheduling point before every statement of hc's packages, preemption bound 1 / 2): two writers on one connection, a writer and the reader, writers on two connections, a write that notifies another connection. Also: a connection that switches to encryption — its reader takes the controller's first encrypted request and writes the response — while other writers are active (seen from the accessory: plain messages, then frames, never plain text after the first frame, and no frames before the controller's first encrypted bytes have arrived — also while the application changes a value and the transport's fan-out walks over the connections); the 2-writer scenario on a connection that has carried 255 / 65535 (thorough also 256, 65534, 65536) writes before; scenarios in which a third thread closes the connection while writers are active (what reaches the peer before the socket closes must still decrypt in order and be whole payloads plus at most the beginning of one — nothing unencrypted); a response announced to the connection (BeginResponse), written in two pieces and finished (EndResponse) while the application changes a value or a keep-alive is due: its pieces reach the peer as one uninterrupted message and what became due meanwhile follows it under the counters of its arrival position (also with a second response right behind the first: nothing kept during the first lands inside the second); the object the server's Accept hands to net/http is the one the session holds (responses and events share one write lock); and every sequence of ≤3 (thorough ≤4) SetDeadline / SetReadDeadline / SetWriteDeadline calls through the hap.Connection (net/http's read-deadline calls at the end of every request must not reach the write deadline of a concurrent event write). Plus a free-running pass of the same bodies in a -race build, with one run against a peer that stalls for 3.5 s (real time) in the middle of a write while two more writers arrive. distinct_nontrivial = distinct (scenario, wire record order) outcomes — more than one per scenario means writers really collided",
+		Rule:  "stateless exploration of goroutine interleavings under a cooperative scheduler with iterative preemption bounding: 2–5 writer goroutines × 1–3 Connection.Write calls with one- and two-frame payloads, keep-alive rounds sent by hap.KeepAlive itself, and EVENTs written by the notifyListener of a real (not started) IP transport after an application value change (a boolean, and a 3000-byte string: an EVENT of four frames), over a socket that stalls in the middle of every write (a write deadline armed meanwhile expires for the write in flight), the connection's own reader opening an incoming two-frame request whose ciphertext arrives in five pieces (each arrival a scheduling point) while writes are in flight, and a writer on another connection of the same accessory, on a real hap.Connection with a real secure session; scheduling points = every Lock of a sync.Mutex/RWMutex and every Wait of a sync.Cond in packages hap and crypto (import rewritten to a shim through go build -overlay) and every socket Write; per schedule the captured wire must decrypt front to back with counters in arrival order (reference AEAD) and be a sequence of whole payloads (the same for the other connection's wire), and the reader must get the request intact — also when the peer takes nothing of what the accessory writes before its own request has been delivered (a reader that waits for something a stalled writer holds is a deadlock). 2-writer scenarios unbounded, larger ones preemption bound 2 (thorough: unbounded / 3). Plus the same questions at STATEMENT granularity (subprocess built with a scheduling point before every statement of hc's packages, preemption bound 1 / 2): two writers on one connection, a writer and the reader, writers on two connections, a write that notifies another connection. Also: a connection that switches to encryption — its reader takes the controller's first encrypted request and writes the response — while other writers are active (seen from the accessory: plain messages, then frames, never plain text after the first frame, and no frames before the controller's first encrypted bytes have arrived — also while the application changes a value and the transport's fan-out walks over the connections); the 2-writer scenario on a connection that has carried 255 / 65535 (thorough also 256, 65534, 65536) writes before; scenarios in which a third thread closes the connection while writers are active (what reaches the peer before the socket closes must still decrypt in order and be whole payloads plus at most the beginning of one — nothing unencrypted); a response announced to the connection (BeginResponse), written in two pieces and finished (EndResponse) while the application changes a value or a keep-alive is due: its pieces reach the peer as one uninterrupted message and what became due meanwhile follows it under the counters of its arrival position (also with a second response right behind the first: nothing kept during the first lands inside the second); the object the server's Accept hands to net/http is the one the session holds (responses and events share one write lock); and every sequence of ≤3 (thorough ≤4) SetDeadline / SetReadDeadline / SetWriteDeadline calls through the hap.Connection (net/http's read-deadline calls at the end of every request must not reach the write deadline of a concurrent event write). Plus a free-running pass of the same bodies in a -race build, with one run against a peer that stalls for 3.5 s (real time) in the middle of a write while two more writers arrive. distinct_nontrivial = distinct (scenario, wire record order) outcomes — more than one per scenario means writers really collided",
 		Shards: func(t string) int {
 			if t == "thorough" {
 				return 16
